@@ -607,7 +607,7 @@ fn test_{test_name}() {{
                 _ => unreachable!(),
             };
             RcDoc::text("\"")
-                .append(id)
+                .append(id.escape_debug().to_string())
                 .append(kwd("\" :"))
                 .append(func_doc)
         });
